@@ -323,6 +323,23 @@ def scn_steps(T, case):
     stepcontract.scenario(T, case, "C13")
 
 
+# ------------------------------------------------------------------------------------ a variable scaler that has served another configuration before
+def cases_scaler_reuse(tier):
+    from contracts import C11
+
+    for cid, c in C11.cases_linear(tier):
+        if c.get("prior"):
+            yield cid, c
+
+
+def scn_scaler_reuse(T, case):
+    """The user-domain linear differences and violations of a result are those of THIS configuration's constraints also when the scaler object has served another configuration before (C11's linear-constraint scenario with a used scaler, under this property's prefix)."""
+    from contracts import C11
+    from contracts.reuse import Renamed
+
+    C11.scn_linear(Renamed(T, "C11.linear.", "C13.scaler_reuse."), case)
+
+
 SCENARIOS = [
     Scenario("create", scn_create, cases_create, {"quick": 6, "thorough": 60}),
     Scenario("transform_from_optimizer", scn_transform, cases_transform, {"quick": 10, "thorough": 100}),
@@ -330,6 +347,7 @@ SCENARIOS = [
     Scenario("variable_scaler_end_to_end", scn_scaler, cases_scaler, {"quick": 10, "thorough": 100}),
     Scenario("user_domain_results", scn_user_results, cases_user_results, {"quick": 3, "thorough": 20}),
     Scenario("plan_steps_hand_over", scn_steps, cases_steps, {"quick": 1, "thorough": 2}),
+    Scenario("scaler_object_reused_for_another_configuration", scn_scaler_reuse, cases_scaler_reuse, {"quick": 5, "thorough": 30}),
 ]
 
 MANIFEST = {
